@@ -291,6 +291,14 @@ def run_task(task):
             a['nets'].append({'name': 'n2', 'pins': [('u1', 'B')], 'wires': []})
             a['spnets'].append({'name': 'VSS', 'pins': [('*', 'VSS')], 'use': 'GROUND', 'wires': []})
             def_case(res, {'ast': a})
+            # a power net listed in SPECIALNETS (routing) and again in NETS (its cell pins), under the same name: two separate entries
+            a = copy_ast()
+            a['spnets'].append({'name': 'VSS', 'pins': [('*', 'VSS')], 'use': 'GROUND', 'wires': [{'layer': 'M1', 'width': 60, 'first': (0, 50), 'items': [('p', 900, None)]}]})
+            a['nets'].append({'name': 'VDD', 'pins': [('u1', 'VDD'), ('u2', 'VDD')], 'wires': []})
+            a['nets'].append({'name': 'VSS', 'pins': [('u1', 'VSS')], 'wires': [{'layer': 'M2', 'first': (7, 7), 'items': [('p', None, 70), ('v', 'via1', None)]}]})
+            def_case(res, {'ast': a})
+            def_case(res, {'ast': dict(a, nets=a['nets'][::-1], spnets=a['spnets'][::-1])})
+            res.count('shared_net_names')
             a = copy_ast()
             a['nets'][0]['ndr'] = 'rule2'
             a['nets'][0]['wires'].append({'layer': 'M2', 'first': (1, 1), 'items': [('p', 2, None), ('v', 'via1', 'N')]})
